@@ -1038,7 +1038,8 @@ def run(ctx):
         "equivalence classes are taken as given (Parser, areEquivalentVariables are C02's and C18's)",
         "equations are recognised in the AnalyserModel by the single <cn> each carries, EXTERNAL equations by the variable they compute",
         "the model is the REPAIRED code (fixes/C20-voi-external.diff: ExternalDefs.voi_fix = true; "
-        "fixes/C20-nla-sibling-dependencies.diff: ExternalDefs.sibling_fix = true)",
+        "fixes/C20-nla-sibling-dependencies.diff: ExternalDefs.sibling_fix = true; "
+        "fixes/C20-uninitialised-state-rescue.diff: ExternalDefs.state_rescue_fix = true, accepted either way until it is in the tree)",
         "emission order: the statements of the four generated methods are recognised by their left-hand sides "
         "(variables[i] / states[i] / rates[i] / findRoot<i> / externalVariable(..., i)); expression text is C03's",
         "execution (A-cc): the C compiler, libm, and a damped-Newton nlaSolve supplied by the check; NLA residuals are only "
@@ -1445,28 +1446,56 @@ def run(ctx):
         if not line or bad:
             violation("C20 model: the extracted model refutes %s on a small system (a theorem or its stated sub-domain is wrong)" % bad,
                       "search", {"search": line})
-    # open known finding C20-nla-external-dependency (fixes/C20-nla-external-dependency.diff): inside its class the
-    # implementation may behave as the repaired model or as the model without that repair
-    if mismatch_idx or emission_idx:
-        idxs = sorted(set(mismatch_idx) | {i for i, _ in emission_idx})
-        nd = dict(zip(idxs, run_sharded(mdl, ["nodep"], [mdl_lines[i] for i in idxs], ctx.workdir, "nodep")))
+    # open known findings with a repair that may or may not be in the tree yet: inside its class the implementation may
+    # behave as the repaired model or EXACTLY as the model without that repair
+    def marks_uninitialised_state(i):
+        s_ = cases[i]["system"]
+        inited, diffed = set(), set()
+        for c_ in s_["comps"]:
+            byname = {v["name"]: v["cls"] for v in c_["vars"]}
+            for v in c_["vars"]:
+                if v["init"] is not None:
+                    inited.add(v["cls"])
+            def dd(x):
+                if x[0] == "D":
+                    diffed.add(byname[x[2]])
+                elif x[0] == "O":
+                    dd(x[1]); dd(x[2])
+            for q in c_["eqs"]:
+                dd(q["lhs"]); dd(q["rhs"])
+        cls_ = A.class_of(s_)
+        mk = {cls_[tuple(int(z) for z in v.split("."))] for v, _ in local_marks(cases[i]["marks"])}
+        return bool(mk & (diffed - inited))
+
+    def has_nla_and_external(i):
+        return any(x["type"] == "nla" for x in ans[i].eqs.values()) and any(v["type"] == "external" for v in ans[i].vars.values())
+    alternates = [("nodep", "C20-nla-external-dependency", has_nla_and_external,
+                   "an NLA equation does not depend on the external variable pruned from its unknowns"),
+                  ("norescue", "C20-uninitialised-state-not-rescued", marks_uninitialised_state,
+                   "a variable used in an ODE without initial value and marked as external is still reported as not initialised")]
+    for mode, fid, in_class, what_ in alternates:
+        if not (mismatch_idx or emission_idx):
+            break
+        idxs = [i for i in sorted(set(mismatch_idx) | {i for i, _ in emission_idx}) if in_class(i)]
+        if not idxs:
+            continue
+        nd = dict(zip(idxs, run_sharded(mdl, [mode], [mdl_lines[i] for i in idxs], ctx.workdir, mode)))
         tok_of = dict(emission_idx)
         excused = set()
         for i in idxs:
             u = nd[i]
             uf = fields(u)
-            in_class = any(x["type"] == "nla" for x in ans[i].eqs.values()) and any(v["type"] == "external" for v in ans[i].vars.values())
             same_analysis = strip_fields(u, ("BI", "BC", "BR", "BV", "ACY", "ORD")) == impl[i]
             same_emission = i not in tok_of or all(uf.get(k, "") == tok_of[i].get(k, "") for k in ("BI", "BC", "BR", "BV"))
-            if in_class and same_analysis and same_emission and ctx.known_finding(
-                    "C20-nla-external-dependency",
-                    "an NLA equation does not depend on the external variable pruned from its unknowns: %s | %s" % (mdl_lines[i][:80], marks_text(cases[i]["marks"]))):
+            if same_analysis and same_emission and ctx.known_finding(fid, "%s: %s | %s" % (what_, mdl_lines[i][:80], marks_text(cases[i]["marks"]))):
                 excused.add(i)
         if excused:
-            hist["cases_behaving_as_the_code_without_the_nla_external_dependency_fix"] = len(excused)
+            hist["cases_behaving_as_the_code_without_a_prepared_repair"] = hist.get("cases_behaving_as_the_code_without_a_prepared_repair", 0) + len(excused)
             mismatch_idx = [i for i in mismatch_idx if i not in excused]
             emission_idx = [(i, tk) for i, tk in emission_idx if i not in excused]
-            late = [(w, n, c) for (w, n, c), i in zip(late, late_idx) if i not in excused]
+            keep = [n for n, i in enumerate(late_idx) if i not in excused]
+            late = [late[n] for n in keep]
+            late_idx = [late_idx[n] for n in keep]
             mismatch = len(mismatch_idx)
             emission_mismatch = len(emission_idx)
     # a difference that is exactly the defect repaired by fixes/C20-voi-external.diff is named as such
